@@ -38,15 +38,31 @@ def argsOfOp (op : List String) : Option (List Bytes) :=
   | "bad" :: rest => (rest.dropWhile (· ≠ "=")).tail.mapM Proto.unhex?
   | _ => some []
 
-def lookupPlugin (tbl : List (Bytes × Bool)) (a : Bytes) : Bool :=
+/-- answers of one recording plugin of the harness' chain, from the `plugin <idx> <hexarg> <ret>` lines -/
+def recAnswers (obs : List (List String)) (idx : Nat) : List (Bytes × Bool) :=
+  obs.filterMap fun l => match l with
+    | ["plugin", i, h, r] => if i.toNat? == some idx then (Proto.unhex? h).map (fun b => (b, r == "1")) else none
+    | _ => none
+
+def lookupAnswer (tbl : List (Bytes × Bool)) (a : Bytes) : Bool :=
   match tbl.find? (·.1 == a) with
   | some e => e.2
   | none => false
 
-def pluginTable (obs : List (List String)) : List (Bytes × Bool) :=
-  obs.filterMap fun l => match l with
-    | ["plugin", h, r] => (Proto.unhex? h).map (fun b => (b, r == "1"))
-    | _ => none
+/-- the harness' plugin chain, head first (harness/h_c12.cpp): recording plugins at 0, 2, 6 (their
+    answers are environment inputs), the real plugins in between with their `parseArguments` -/
+def harnessChain (obs : List (List String)) : List (Bytes → Bool) :=
+  [ lookupAnswer (recAnswers obs 0),      -- RecA
+    defaultParseArguments,                -- SetPointerPlugin
+    lookupAnswer (recAnswers obs 2),      -- RecB
+    defaultParseArguments,                -- MemoryLeakWarningPlugin
+    defaultParseArguments,                -- MockSupportPlugin
+    memoryReporterParseArguments,         -- MemoryReporterPlugin
+    lookupAnswer (recAnswers obs 6) ]     -- RecC
+
+def recordingPositions : List Nat := [0, 2, 6]
+def harnessPluginNames : List String :=
+  ["RecA", "HarnessSetPointer", "RecB", "HarnessMemLeak", "HarnessMock", "MemoryReporterPlugin", "RecC"]
 
 def timeOf (obs : List (List String)) : Nat :=
   (obs.findSome? fun l => match l with | ["time", t] => t.toNat? | _ => none).getD 0
@@ -90,11 +106,13 @@ def RegCall.render : RegCall → String
   | .reverse => "reverseTests"
   | .shuffle s => s!"shuffleTests:{s}"
   | .runAll => "runAllTests"
+  | .install n => s!"install:{n}"
+  | .remove n => s!"remove:{n}"
 
 def commaStrs (l : List String) : String := if l.isEmpty then "-" else ",".intercalate l
 
 def renderRunner (r : ParseResult) : List String :=
-  if r.isOk && r.cfg.repeatCount > 3 then ["skipped"] else
+  if r.cfg.repeatCount > 3 then ["skipped"] else
   let t := runner probes r
   let shuffled := t.calls.any fun c => match c with | .shuffle _ => true | _ => false
   [ s!"rc {t.rc}",
@@ -105,24 +123,48 @@ def renderRunner (r : ParseResult) : List String :=
     s!"ran {if shuffled then "sorted" else "inorder"} {commaNats (if shuffled then sortNats t.ran else t.ran)}",
     s!"statics crashOnFail={b01 t.crashOnFail} rethrow={b01 t.rethrow}" ]
 
+def renderRunAll (r : ParseResult) : List String :=
+  if r.cfg.repeatCount > 3 then ["skipped"] else
+  let g := runAllTestsGlue probes harnessPluginNames r
+  let shuffled := g.calls.any fun c => match c with | .shuffle _ => true | _ => false
+  [ s!"rc {g.rc}",
+    s!"printed {match g.run.printed with | .help => "help" | .usage => "usage" | .other => "other"}",
+    s!"calls {commaStrs (g.calls.map RegCall.render)}",
+    s!"ran {if shuffled then "sorted" else "inorder"} {commaNats (if shuffled then sortNats g.run.ran else g.run.ran)}",
+    s!"registry plugins before={harnessPluginNames.length} after={g.pluginsAfter.length} memleak={b01 (g.pluginsAfter.contains nameMemLeak)} setpointer={b01 (g.pluginsAfter.contains nameSetPointer)}" ]
+
+/-- `plugins` stage: every `-p<x>` argument handed to the head of the chain -/
+def renderChain (chain : List (Bytes → Bool)) (args : List Bytes) : List String :=
+  (args.filter fun a => startsWith a [45, 112] && a.length > 2).map fun a =>
+    let n := chainAsked chain a
+    s!"chain {Proto.hex a} asked={commaNats (recordingPositions.filter (· < n))} ret={b01 (chainAnswer chain a)}"
+
 /-! ## model replay -/
 
 structure DState where
   args   : List Bytes := []          -- argv[1..], in order
   bad    : Bool := false
+  chain  : List (Bytes → Bool) := []
   result : Option ParseResult := none
 
 def modelStep (d : DState) (op : List String) (obs : List (List String)) : DState × List String :=
   match op with
   | ["time", _] => (d, [])
   | ["skip"] => (d, [])
+  | ["plugins"] =>
+    let chain := harnessChain obs
+    ({ d with chain := chain }, renderChain chain d.args)
   | ["parse"] =>
-    let env : Env := { time := timeOf obs, plugin := lookupPlugin (pluginTable obs) }
+    let env : Env := { time := timeOf obs, plugins := d.chain }
     let r := parse env (ofString "prog" :: d.args)
     ({ d with result := some r }, s!"time {env.time}" :: renderConfig r)
   | ["run"] =>
     match d.result with
     | some r => (d, renderRunner r)
+    | none => (d, ["bad-op"])
+  | ["runall"] =>
+    match d.result with
+    | some r => (d, renderRunAll r)
     | none => (d, ["bad-op"])
   | _ =>
     match argsOfOp op with
@@ -253,8 +295,10 @@ def renderedCase (ops : List Proto.Op) : Except String (Option (List (Opt × For
         | none => throw s!"opt line {" ".intercalate desc}: not a documented option"
       | _ => pure ()
     | ["time", _] => pure ()
+    | ["plugins"] => pure ()
     | ["parse"] => pure ()
     | ["run"] => pure ()
+    | ["runall"] => pure ()
     | _ => if bad.isSome then pure () else all := false      -- whatever follows a rejected argument is never read
   return if all then some (out, bad) else none
 
@@ -287,25 +331,63 @@ def docOnePass (c : Config) : List Nat :=
     | none => false
   if c.reversing then idx.reverse else idx
 
+def showHexArg (h : String) : String := match Proto.unhex? h with | some b => toStringLossy b | none => h
 def showFilter (f : Filter) : String := toStringLossy f.asString
 def showHex (h : String) : String := match Proto.unhex? h with | some b => toStringLossy b | none => h
 
+/-- `TestPlugin::parseAllArguments` as documented in TestPlugin.h ("parseAllArguments" asks the
+    chain): judged on the recording plugins' own lines.  For every `-p<x>` argument: the
+    recording plugins are asked in chain order starting at the head, nobody is asked after one
+    accepted, and the chain accepts iff one of the asked plugins did (`-pmemoryreport=` is the
+    MemoryReporterPlugin's, which sits between the second and third recording plugin). -/
+def specChain (obs : List (List String)) : Except String Unit := do
+  let mut asked : List (Nat × Bool) := []
+  for l in obs do
+    match l with
+    | ["plugin", i, _, r] => asked := asked ++ [(i.toNat?.getD 99, r == "1")]
+    | ["chain", h, _, ret] =>
+      let arg := (Proto.unhex? h).getD []
+      let idx := asked.map (·.1)
+      let accepted := asked.find? (·.2)
+      let memrep := isInfix arg (ofString "-pmemoryreport=")
+      if !(idx == [0] || idx == [0, 2] || idx == [0, 2, 6]) then throw s!"plugin chain for {showHexArg h}: asked {idx}, not a head-first prefix of the chain"
+      match accepted with
+      | some (i, _) =>
+        if asked.getLast? != some (i, true) then throw s!"plugin chain for {showHexArg h}: plugin {i} accepted, but plugins behind it were asked"
+        if ret != "ret=1" then throw s!"plugin chain for {showHexArg h}: plugin {i} accepted, the chain refused"
+      | none =>
+        if memrep then
+          if idx != [0, 2] then throw s!"plugin chain for {showHexArg h}: asked {idx} around the memory reporter's argument"
+          if ret != "ret=1" then throw s!"plugin chain for {showHexArg h}: the memory reporter's argument was refused"
+        else
+          if idx != [0, 2, 6] then throw s!"plugin chain for {showHexArg h}: nobody accepted, but only {idx} were asked"
+          if ret != "ret=0" then throw s!"plugin chain for {showHexArg h}: nobody accepted, the chain accepted"
+      asked := []
+    | _ => pure ()
+  return ()
+
 def specParse (ops : List Proto.Op) : Except String Unit := do
+  match ops.find? (·.op == ["plugins"]) with
+  | some pl => specChain pl.obs
+  | none => throw "the plugin chain stage did not run"
   let some p := ops.find? (·.op == ["parse"]) | throw "the parser did not run"
   for k in getterKeys do
     if (findObs p.obs k).isNone then throw s!"the parser did not finish: `{k}` not reported"
   let rejected := findObs p.obs "result" == some ["reject"]
   let needHelp := findObs p.obs "needHelp" == some ["1"]
+  let bigRepeat := match findObs p.obs "repeat" with | some [n] => n.toNat?.getD 0 > 3 | _ => false
   let run := ops.find? (·.op == ["run"])
   -- a rejected vector: help or usage is printed and no test runs
   if rejected then
     match run with
     | some r =>
-      if findObs r.obs "skipped" == some [] then throw "runner stage skipped for a rejected vector"
-      expectLine r.obs "printed" [if needHelp then "help" else "usage"]
-      expectLine r.obs "ran" ["inorder", "-"]
-      expectLine r.obs "calls" ["-"]
-      expectLine r.obs "rc" ["1"]
+      if findObs r.obs "skipped" == some [] then
+        if !bigRepeat then throw "runner stage skipped for a rejected vector"
+      else
+        expectLine r.obs "printed" [if needHelp then "help" else "usage"]
+        expectLine r.obs "ran" ["inorder", "-"]
+        expectLine r.obs "calls" ["install:SetPointerPlugin,remove:SetPointerPlugin"]
+        expectLine r.obs "rc" ["1"]
     | none => throw "the runner did not finish"
   else
     match run with
@@ -315,12 +397,31 @@ def specParse (ops : List Proto.Op) : Except String Unit := do
         if findObs r.obs "printed" == some ["help"] || findObs r.obs "printed" == some ["usage"] then
           throw "accepted vector, but help/usage was printed"
     | none => throw "the runner did not finish"
+  -- the static entry point RunAllTests(ac, av): the same, and the registry gets its plugins back
+  let runall := ops.find? (·.op == ["runall"])
+  match runall with
+  | some r =>
+    if findObs r.obs "skipped" != some [] then
+      if (findObs r.obs "rc").isNone || (findObs r.obs "ran").isNone then throw "RunAllTests did not finish"
+      match findObs r.obs "registry" with
+      | some ["plugins", b, a, m, sp] =>
+        if b.drop 7 != a.drop 6 then throw s!"RunAllTests: registry plugins {b} {a}"
+        if m != "memleak=0" || sp != "setpointer=0" then throw s!"RunAllTests left a plugin installed: {m} {sp}"
+      | _ => throw "RunAllTests did not finish"
+      if rejected then
+        expectLine r.obs "printed" [if needHelp then "help" else "usage"]
+        expectLine r.obs "ran" ["inorder", "-"]
+        expectLine r.obs "rc" ["1"]
+      else if findObs r.obs "printed" == some ["help"] || findObs r.obs "printed" == some ["usage"] then
+        throw "RunAllTests: accepted vector, but help/usage was printed"
+    else if rejected && !bigRepeat then throw "RunAllTests stage skipped for a rejected vector"
+  | none => throw "RunAllTests did not finish"
   -- documented options: the configuration is the documented one
   match ← renderedCase ops with
   | none => pure ()
   | some (ofs, bad) =>
     let os := ofs.map Prod.fst
-    let env : Env := { time := timeOf p.obs, plugin := fun _ => false }
+    let env : Env := { time := timeOf p.obs, plugins := [] }
     let c0 := meaning env os
     -- a documented rejection after the options: refused; what the options set stays set
     let c := match bad with
@@ -388,6 +489,14 @@ def specParse (ops : List Proto.Op) : Except String Unit := do
         if wantOut.contains "console" then
           expectLine r.obs "console" [s!"verbosity={if c.veryVerbose then 2 else if c.verbose then 1 else 0}", s!"color={b01 c.color}"]
         expectLine r.obs "statics" [s!"crashOnFail={b01 c.crashOnFail}", s!"rethrow={b01 c.rethrow}"]
+        -- RunAllTests(ac, av) runs the same tests; 0 unless nothing was selected
+        match runall with
+        | some ra =>
+          if c.shuffling && !listing then expectLine ra.obs "ran" ["sorted", commaNats (sortNats want)]
+          else expectLine ra.obs "ran" ["inorder", commaNats want]
+          let anySelected := probes.any fun p => selects c p.group p.name
+          expectLine ra.obs "rc" [if listing || anySelected then "0" else toString c.repeatCount]
+        | none => pure ()
     | none => throw "the runner did not finish"
 
 def specAll (ops : List Proto.Op) : Option String :=
